@@ -81,14 +81,15 @@ type Pkg struct {
 }
 
 type File struct {
-	Pkg      *Pkg
-	Name     string
-	Header   []*Line // lines before the package clause
-	Decls    []*Node
-	ExtTest  bool              // external test package (package name + "_test")
-	Rename   map[string]string // import path -> explicit import name
-	PkgTrail *Ignore           // an @ignore comment trailing the package clause: its scope is that line, i.e. nothing
-	BlankImp []string          // blank imports
+	Pkg             *Pkg
+	Name            string
+	Header          []*Line // lines before the package clause
+	Decls           []*Node
+	ExtTest         bool              // external test package (package name + "_test")
+	Rename          map[string]string // import path -> explicit import name
+	PkgTrail        *Ignore           // an @ignore comment trailing the package clause: its scope is that line, i.e. nothing
+	PkgTrailKeyword bool              // ... trailing the keyword `package`, the name on the next line
+	BlankImp        []string          // blank imports
 }
 
 func (f *File) IsTest() bool { return strings.HasSuffix(f.Name, "_test.go") }
@@ -151,16 +152,17 @@ const (
 )
 
 type Use struct {
-	Kind    UseKind
-	T       *Type
-	Field   string
-	Fn      *Func
-	Sub     string
-	Call    bool
-	Free    map[string]bool // analyzer categories for which the statement of the property is silent on this shape
-	Feature string          // the single hostile feature of this use ("" = plain)
-	Alias   bool            // the mention goes through an alias name declared elsewhere (PKGO: not a mention of the item)
-	SpellAs string          // explicit spelling of the mention (e.g. a package-local alias declared in another file)
+	Kind      UseKind
+	T         *Type
+	Field     string
+	Fn        *Func
+	Sub       string
+	Call      bool
+	Free      map[string]bool // analyzer categories for which the statement of the property is silent on this shape
+	Feature   string          // the single hostile feature of this use ("" = plain)
+	Alias     bool            // the mention goes through an alias name declared elsewhere (PKGO: not a mention of the item)
+	SpellAs   string          // explicit spelling of the mention (e.g. a package-local alias declared in another file)
+	ImmHolder bool            // a field write promoted through an @immutable struct declared in the writing file
 }
 
 type Ignore struct {
@@ -670,6 +672,16 @@ func evalLine(c *ctx, l *Line, effT func(*Type) bool, effF func(*Func) bool) (ou
 			cls := "IMM/" + kindName(u.Kind)
 			if free(IMM) {
 				out = append(out, cand{line: l, cat: IMM, free: true, feature: feat, class: cls + "/free"})
+				continue
+			}
+			if u.ImmHolder {
+				// the promoted field acts as a field of the @immutable holder (no constructors, no marks of its own): a
+				// write is due unless the field is marked @mutable where it is declared (and that declaration is read)
+				if effT(t) && t.Immutable && t.Mutable[u.Field] {
+					out = append(out, cand{line: l, cat: IMM, never: true, feature: feat, class: cls + "/mutable-field"})
+				} else {
+					out = append(out, cand{line: l, cat: IMM, code: immCode[u.Kind], feature: feat, class: cls + "/immutable-holder"})
+				}
 				continue
 			}
 			if !effT(t) || !t.Immutable {
